@@ -55,6 +55,8 @@ FEATS = {
     "nkv": [0, 1, 2, 3], "kv0": KV_SHAPES, "msg": MSG_SHAPES, "lay": ["tight", "space", "nl", "nl0", "blockc", "linec"],
     "directive": ["none", "none", "none", "ignore", "no-kvp"], "trailcomma": [False, True],
     "bang": ["tight", "tight", "tight", "sp", "nl", "cm", "sp_after"],
+    # what stands before the statement on its line (the statement is an expression of type ())
+    "ctx": ["plain", "plain", "plain", "if_block", "let_unit", "match_arm", "closure"],
 }
 # statements of the log crate that lie outside the canonical space (the general log! macro with an explicit level; `log` itself is
 # one of the configured macro names): the tool may leave them alone or edit them, but the program must keep compiling and
@@ -117,16 +119,17 @@ def build_program(rows, seed, structured):
         marker = "P%d" % i
         L = lambda: gen.lay(f["lay"], rnd, "\n", indent="        ")
         macro = f["level"] if f["path"] == "bare" else "log::" + f["level"]
+        SP = "" if (f["lay"] == "tight" and rnd.random() < 0.3) else " "
         bang = f.get("bang", "tight") if core.SPACED_BANG else "tight"
         parts = [macro, {"sp": " ", "nl": "\n        ", "cm": " /* lvl */ "}.get(bang, ""), "!", " " if bang == "sp_after" else "", "(", L()]
         if f["target"] != "none":
             if f["target"].startswith("expr_"):
                 te = {"expr_const": "TARGET_NAME", "expr_macro": "module_path!()", "expr_concat": 'concat!(module_path!(), "::net")',
                       "expr_format": '&format!("t{}", x)'}[f["target"]]
-                parts += ["target: %s" % te, L(), ",", L() or " "]
+                parts += ["target: %s" % te, L(), ",", L() or SP]
             else:
                 t = {"plain": "app", "colons": "app::db", "slashes": "http://svc/x", "escq": 'a\\"b', "blockopen": "glob/* and */ too"}[f["target"]]
-                parts += ['target: "%s"' % t, L(), ",", L() or " "]
+                parts += ['target: "%s"' % t, L(), ",", L() or SP]
         nkv = f["nkv"]
         keys = rnd.sample(KEYS, nkv)
         kvs = []
@@ -142,9 +145,9 @@ def build_program(rows, seed, structured):
         for j, kv in enumerate(kvs):
             parts.append(kv)
             if j < len(kvs) - 1:
-                parts += [L(), ",", L() or " "]
+                parts += [L(), ",", L() or SP]
         if kvs:
-            parts += [L(), ";", L() or " "]
+            parts += [L(), ";", L() or SP]
         lit, args = msg_text(f["msg"], marker)
         parts += [lit, args]
         if f["trailcomma"] and args:
@@ -156,7 +159,10 @@ def build_program(rows, seed, structured):
             body += "    // breadlog:ignore\n"
         elif f["directive"] == "no-kvp":
             body += "    /* breadlog:no-kvp */\n"
-        body += "    " + stmt + ";\n}\n"
+        ctx = f.get("ctx", "plain")
+        head, tail_ = {"if_block": ("if flag && x > 1 && cfg.len >= 3 && user != 0 { ", " }"), "let_unit": ("let _unit: () = ", ";"),
+                       "match_arm": ("match x { 5 if flag => ", ", _ => () }"), "closure": ("(|| ", ")();")}.get(ctx, ("", ";"))
+        body += "    " + head + stmt + tail_ + "\n}\n"
         out.append(body)
         calls.append("    s%d();" % i)
         effect = "none" if f["directive"] == "ignore" else ("msg" if (not structured or f["directive"] == "no-kvp") else "kv")
